@@ -263,6 +263,9 @@ def run_ws(t):
                     s.add('opt.steps', 'O%d' % step, 2)
                     X.eval_cmd(s, 'O%d' % step, 'R%d' % step, xs, ws='W', tag='e%d' % step)
                     if last:
+                        # a copy of the used workspace behaves like the workspace (and like a fresh one)
+                        s.add('opt.wscopy WC W')
+                        X.eval_cmd(s, 'O%d' % step, 'RC', xs, ws='WC', tag='e%d' % step)
                         s.add('opt.wsspline W RS')
                         X.eval_cmd(s, 'O%d' % step, 'F', xs, ws='WF', tag='e%d' % step)
                         s.add('opt.wsspline WF FS')
@@ -283,6 +286,8 @@ def run_ws(t):
             sc = O.Scenario(ID, '%s %s history=%s' % (t['name'], wsmode, '->'.join(h)), tu, s, timeout=t['timeout'])
             g = sc.dag
             compare_all(sc, g, 'R%d.' % L, 'F.', 'evaluation with the reused workspace')
+            if wsmode == 'explicit':
+                compare_all(sc, g, 'RC.', 'F.', 'evaluation with a COPY of the reused workspace')
             compare_all(sc, g, 'R%d@' % L, 'F@', 'functor arguments with the reused workspace')
             compare_all(sc, g, 'RS.', 'FS.', 'workspace spline after reuse')
             out.append(sc)
